@@ -85,15 +85,9 @@ def _alphabet(*patterns: str) -> list[str]:
 
 
 def _re_mode(f, what: str) -> str:
-    """Which re function a validator method applies to (self.regex, <arg>)."""
-    found = []
-    for c in walk_no_nested(f.node):
-        if isinstance(c, ast.Call) and isinstance(c.func, ast.Attribute) and norm(c.func.value) == "re" \
-                and c.args and norm(c.args[0]) == "self.regex":
-            found.append(c.func.attr)
-    if len(found) != 1 or found[0] not in ("match", "search", "fullmatch"):
-        raise AnchorError(f"{what}: expected exactly one re.match/search/fullmatch(self.regex, ...) call, found {found}")
-    return {"match": "match", "search": "search", "fullmatch": "full"}[found[0]]
+    """Which re function a validator method applies to its pattern (shapes: see opstatic/matchsite.py)."""
+    from ..matchsite import match_site
+    return match_site(f, what)["mode"]
 
 
 def _show(word: str) -> str:
